@@ -626,6 +626,16 @@ func (e *specEnv) callSpec(s *SCall) Term {
 			b = x.U.Box(b, b.GoT)
 		}
 		return T("("+f+" "+a.S+" "+b.S+")", SIface)
+	case "local":
+		// local("name"): a program variable whose name collides with a spec keyword
+		if t, ok := e.lookup(e.strArg(s.Args[0])); ok {
+			return t
+		}
+		e.fail("unknown local %s", e.strArg(s.Args[0]))
+	case "ctxbackground":
+		c := x.U.Const("ctx.Background", SIface)
+		x.assumeOnce("(not ((_ is nilI) ctx.Background))")
+		return c
 	case "ctxparent":
 		f := x.U.Fun("ctx.parent", []*Sort{SIface}, SIface)
 		return T("("+f+" "+e.eval(s.Args[0]).S+")", SIface)
